@@ -202,6 +202,9 @@ Msg(p, m) ==
                  THEN /\ r' = [r EXCEPT ![p] = {x \in @ : x.c # m.c}] /\ ToTor(p, Drops(<<m.c>>))
                  ELSE UNCHANGED <<r, torQ>>
             /\ UNCHANGED <<pb, pbnil, unch, fast, q, store>>
+       [] m.k = "wild" ->
+            \* a block whose piece index is far out of range (2^32-1): refused, nothing changes
+            UNCHANGED <<pb, pbnil, unch, fast, q, r, store, torQ>>
        [] m.k = "piece" ->
             \* m.c: block addressed; m.pl: payload class
             /\ IF m.c \notin Held(p) THEN UNCHANGED <<q, r, store, torQ>>     \* unsolicited: ignored
@@ -249,7 +252,7 @@ Pump(p) ==
   /\ last' = [a |-> "Pump", p |-> p]
   /\ UNCHANGED <<inFlight, avail, peerQ, pb, pbnil, unch, fast, canFast, store, pcomplete, nmsg, nreq>>
 
-Msgs == {[k |-> n] : n \in {"unchoke", "choke", "haveall", "havenone"}}
+Msgs == {[k |-> n] : n \in {"unchoke", "choke", "haveall", "havenone", "wild"}}
         \cup {[k |-> n, i |-> i] : n \in {"have", "donthave", "allowedfast"}, i \in Piece}
         \cup {[k |-> "bitfield", s |-> s] : s \in SUBSET Piece}
         \cup {[k |-> "reject", c |-> c] : c \in Chunk}
